@@ -1304,8 +1304,26 @@ namespace bloch::runtime {
     void RuntimeEvaluator::markObject(const std::shared_ptr<Object>& obj) {
         if (!obj || obj->marked)
             return;
+        // Explicit work list: a long chain of objects must not need one native stack frame
+        // per link.
+        std::vector<Object*> work{obj.get()};
         obj->marked = true;
-        for (const auto& field : obj->fields) markValue(field);
+        auto visit = [&work](const std::shared_ptr<Object>& o) {
+            if (o && !o->marked) {
+                o->marked = true;
+                work.push_back(o.get());
+            }
+        };
+        while (!work.empty()) {
+            Object* cur = work.back();
+            work.pop_back();
+            for (const auto& field : cur->fields) {
+                if (field.type == Value::Type::Object)
+                    visit(field.objectValue);
+                else if (field.type == Value::Type::ObjectArray)
+                    for (const auto& o : field.objectArray) visit(o);
+            }
+        }
     }
 
     void RuntimeEvaluator::markValue(const Value& v) {
@@ -1438,6 +1456,9 @@ namespace bloch::runtime {
                 thisVal.objectValue = storage;
                 thisVal.className = cur->name;
                 m_env.back()["this"] = {thisVal, false, true};
+                // Objects the destructor body releases are released there and then.
+                std::vector<Value>* outerSink = m_releaseSink;
+                m_releaseSink = nullptr;
                 try {
                     for (auto& stmt : cur->destructorDecl->body->statements) {
                         exec(stmt.get());
@@ -1458,6 +1479,7 @@ namespace bloch::runtime {
                     failed = true;
                 }
                 endScope();
+                m_releaseSink = outerSink;
                 m_inDestructor = prevDtor;
                 m_inConstructor = prevCtor;
                 m_inStaticContext = prevStatic;
@@ -1491,7 +1513,26 @@ namespace bloch::runtime {
                 }
             }
         }
-        obj->fields.clear();
+        // The objects this one owned are released from a work list kept by the outermost
+        // release in progress, in the same depth-first order as nested releases would give,
+        // so that a long chain of objects does not need a native stack frame per link.
+        std::vector<Value> doomed;
+        doomed.swap(obj->fields);
+        if (m_releaseSink) {
+            for (auto it = doomed.rbegin(); it != doomed.rend(); ++it)
+                m_releaseSink->push_back(std::move(*it));
+            return;
+        }
+        std::vector<Value> pending;
+        m_releaseSink = &pending;
+        for (auto it = doomed.rbegin(); it != doomed.rend(); ++it) pending.push_back(std::move(*it));
+        doomed.clear();
+        while (!pending.empty()) {
+            Value next = std::move(pending.back());
+            pending.pop_back();
+            // 'next' is released at the end of this iteration; what it owned lands on 'pending'
+        }
+        m_releaseSink = nullptr;
     }
 
     void RuntimeEvaluator::runFieldInitialisers(RuntimeClass* cls,
